@@ -417,6 +417,14 @@ pub fn gen_object(rng: &mut Rng, enc: Enc, o: &GenOpts) -> (ObjSpec, ObjModel) {
                     2 if !other.is_empty() => other[1..].to_vec(),                  // proper suffix
                     3 => { let mut v = other; v.push(b'x'); v }                     // extension
                     4 => Vec::new(),                                                // empty
+                    6 if !other.is_empty() && rng.bool() => {
+                        // another name with the same GNU hash (and one with the same SysV hash is a prefix game away)
+                        let mut v = b".c".to_vec();
+                        let target = crate::reference::hash::ref_gnu_hash(&other);
+                        let suf = symtab::gnu_suffix_for(&v, target);
+                        v.extend_from_slice(&suf);
+                        v
+                    }
                     5 if rng.bool() => vec![b'.', 0xff, 0xfe, b'a'],                // non-UTF-8
                     5 => { let mut v = other; v.push(*rng.pick(&[0x01u8, 0x01, 0x7f, 0x80, 0xff])); v } // boundary byte before the NUL
                     _ => { let mut v = vec![b'.']; v.extend_from_slice(&other); v }
@@ -440,6 +448,18 @@ pub fn gen_object(rng: &mut Rng, enc: Enc, o: &GenOpts) -> (ObjSpec, ObjModel) {
                 let len = d.body.len() as u64;
                 d.body = Vec::new();
                 d.place = Place::ShareStart(src + 1, len);
+                // ... sometimes of the sibling kind (two differently typed headers designating the same bytes)
+                if rng.chance(1, 3) {
+                    d.sh_type = match d.sh_type {
+                        t if t == k::SHT_GNU_VERNEED => k::SHT_GNU_VERDEF,
+                        t if t == k::SHT_GNU_VERDEF => k::SHT_GNU_VERNEED,
+                        t if t == k::SHT_SYMTAB => k::SHT_DYNSYM,
+                        t if t == k::SHT_DYNSYM => k::SHT_SYMTAB,
+                        t if t == k::SHT_HASH => k::SHT_GNU_HASH,
+                        t if t == k::SHT_GNU_HASH => k::SHT_HASH,
+                        t => t,
+                    };
+                }
             }
             match rng.below(6) {
                 0 => d.entsize = [0u64, 1, d.entsize + 1, 0xffff][rng.usize_below(4)],
@@ -490,6 +510,26 @@ pub fn gen_object(rng: &mut Rng, enc: Enc, o: &GenOpts) -> (ObjSpec, ObjModel) {
                 let p_type = [k::PT_LOAD, k::PT_NOTE, 6, 0x6474_e551][rng.usize_below(4)];
                 spec.segs.push(Seg { p_type, flags: rng.below(8) as u32, range, vaddr: rng.next_u64(), paddr: 0, memsz_extra: rng.boundary(32), align: [0u64, 1, 4, 8, 3][rng.usize_below(5)] });
             }
+        }
+    }
+    if o.unmodelled_shapes && spec.has_phdrs && !spec.secs.is_empty() && rng.chance(1, 4) {
+        // a second segment of a kind that exists once (PT_DYNAMIC, PT_INTERP, PT_PHDR, PT_TLS), over other bytes, in front
+        // of or behind the first one in the table
+        let p_type = *rng.pick(&[k::PT_DYNAMIC, k::PT_DYNAMIC, 3u32, 6, 7]);
+        let a = 1 + rng.usize_below(spec.secs.len());
+        let seg = Seg { p_type, flags: 6, range: SegRange::OfSection(a), vaddr: 0x3000, paddr: 0x3000, memsz_extra: 0, align: 8 };
+        if rng.bool() {
+            spec.segs.insert(0, seg);
+            if let Some(i) = m.dynamic_seg.as_mut() {
+                *i += 1;
+            }
+            for ns in m.notes.iter_mut() {
+                if let Some(i) = ns.seg.as_mut() {
+                    *i += 1;
+                }
+            }
+        } else {
+            spec.segs.push(seg);
         }
     }
     if o.unmodelled_shapes {
